@@ -165,7 +165,7 @@ def header_offsets(frames):
 DRIVERS = ("frame", "data_frame", "data", "recv")
 
 
-def drive(ws, fs, driver, cf=False, max_calls=400, stop_on_timeout=False):
+def drive(ws, fs, driver, cf=False, max_calls=400, stop_on_timeout=False, resume=False):
     """Repeat one receive call until it raises something other than a timeout.
 
     events: ("ret", value, consumed, nwrites) | ("timeout", consumed) | ("raise", excname, consumed, nwrites)
@@ -200,6 +200,8 @@ def drive(ws, fs, driver, cf=False, max_calls=400, stop_on_timeout=False):
             break
         except Exception as e:
             events.append(("raise", type(e).__name__, fs.consumed, len(fs.writes()), e))
+            if resume and isinstance(e, (websocket.WebSocketProtocolException, websocket.WebSocketPayloadException)):
+                continue  # the application catches the rejection and keeps receiving
             break
     else:
         events.append(("too-many-calls", max_calls))
@@ -212,7 +214,7 @@ def _b(x):
     return bytes(x)
 
 
-def expected_events(frames, ends, wire_len, driver, cf=False, fire=False, skip=False, truncated=False):
+def expected_events(frames, ends, wire_len, driver, cf=False, fire=False, skip=False, truncated=False, resume=False):
     """Expected trace for a *complete* list of frames followed by end of stream.
 
     -> list of ("ret", value, consumed, nwrites) then one ("raise", excname, consumed, nwrites)
@@ -228,12 +230,14 @@ def expected_events(frames, ends, wire_len, driver, cf=False, fire=False, skip=F
                 v = None  # recv_frame itself is not required to police ping length (the message level does)
             if v:
                 out.append(("raise", "WebSocketProtocolException", end, nw))
+                if resume:
+                    continue
                 return out, []
             out.append(("ret", ("F", f.opcode, f.fin, f.payload), end, nw))
         out.append(("raise", "WebSocketConnectionClosedException", wire_len, nw))
         return out, []
     model = rm.StreamModel(control_frame=cf, fire_cont_frame=fire, skip_utf8=skip)
-    events, writes = model.run(frames)
+    events, writes = model.run(frames, resume=resume)
     wr = [(k, p) for (_i, k, p) in writes]
 
     def nwrites_upto(idx):
@@ -244,6 +248,8 @@ def expected_events(frames, ends, wire_len, driver, cf=False, fire=False, skip=F
             idx = ev[3]
             name = "WebSocketProtocolException" if ev[1] == "protocol" else "WebSocketPayloadException"
             out.append(("raise", name, ends[idx], nwrites_upto(idx - 1)))
+            if resume:
+                continue
             wr = wr[: nwrites_upto(idx - 1)]
             return out, wr
         _r, op, fin, data, idx = ev
@@ -290,12 +296,12 @@ def client_writes(fs):
     return out, problems
 
 
-def run_stream(specs, cuts=(), driver="data_frame", cf=False, fire=False, skip=False, script_extra=None):
+def run_stream(specs, cuts=(), driver="data_frame", cf=False, fire=False, skip=False, script_extra=None, resume=False):
     """Build ws over the segmented wire, drive it, return (events, ws, fs, frames, ends, wire)."""
     wire, frames, ends = wire_of(specs)
     script = split_at(wire, cuts) if script_extra is None else script_extra(wire)
     ws, fs = make_ws(script, fire_cont_frame=fire, skip_utf8_validation=skip)
-    events = drive(ws, fs, driver, cf)
+    events = drive(ws, fs, driver, cf, resume=resume)
     return events, ws, fs, frames, ends, wire
 
 
@@ -330,7 +336,9 @@ def compare(obs, got, want, tag, frames=None):
             if e[3] != w[3]:
                 obs.fail(f"{tag}|writes-at-raise", f"event {i}: {e[3]} client writes, expected {w[3]}")
                 return False
-            return True
+            if i == len(want) - 1:
+                return True
+            continue
         if e[1] != w[1]:
             what = "value"
             if e[1][0] == w[1][0] and len(e[1]) == len(w[1]):
